@@ -48,7 +48,10 @@ theorem Fail_eq (field : Int) (msg : String) (d : Dec) :
 
 theorem nextField_eq (advance : Int) (d : Dec) :
     GoSrc.Decoder.nextField advance d = Dec.nextField d advance := by
-  simp [GoSrc.Decoder.nextField, Dec.nextField, fail_eq, Go.len, sliceFrom_eq, fieldDecodingDone]
+  first
+  | (simp [GoSrc.Decoder.nextField, Dec.nextField, fail_eq, Go.len, sliceFrom_eq, fieldDecodingDone]; done)
+  | (simp only [GoSrc.Decoder.nextField, Dec.nextField, fail_eq, Go.len, sliceFrom_eq, fieldDecodingDone, bind, Res.bind, pure]
+     grind)
 
 theorem pushState_eq (message : Bytes) (d : Dec) :
     GoSrc.Decoder.pushState message d = Dec.pushState d message := by
@@ -88,15 +91,25 @@ theorem Loop_eq {σ} (fn : DecM σ) (d : Dec) (s : σ) :
 
 theorem Message_eq {σ} (field : Int) (fn : DecM σ) (d : Dec) (s : σ) :
     GoSrc.Decoder.Message field fn d s = Dec.message field fn d s := by
-  unfold GoSrc.Decoder.Message Dec.message
-  simp only [fail_eq, pushState_eq, Loop_eq, popState_eq, nextField_eq]
-  simp
+  first
+  | (unfold GoSrc.Decoder.Message Dec.message
+     simp only [fail_eq, pushState_eq, Loop_eq, popState_eq, nextField_eq]
+     simp; done)
+  | (unfold GoSrc.Decoder.Message Dec.message
+     simp only [fail_eq, pushState_eq, Loop_eq, popState_eq, nextField_eq, bind, Res.bind, pure]
+     grind)
 
 theorem PresentMessage_eq {σ} (field : Int) (fn : DecM σ) (d : Dec) (s : σ) :
     GoSrc.Decoder.PresentMessage field fn d s = Dec.message field fn d s := by
-  unfold GoSrc.Decoder.PresentMessage Dec.message
-  simp only [fail_eq, pushState_eq, Loop_eq, popState_eq, nextField_eq]
-  simp
+  first
+  | (unfold GoSrc.Decoder.PresentMessage Dec.message
+     simp only [fail_eq, pushState_eq, Loop_eq, popState_eq, nextField_eq]
+     simp; done)
+  | (unfold GoSrc.Decoder.PresentMessage
+     simp only [Message_eq, fail_eq, pushState_eq, Loop_eq, popState_eq, nextField_eq, bind, Res.bind, pure]
+     unfold Dec.message
+     simp only [bind, Res.bind, pure]
+     grind)
 
 theorem RepeatedMessage_loop1_eq {σ} (field : Int) (fn : DecM σ) (fuel : Nat) (d : Dec) (s : σ) :
     Res.mapr Prod.snd (GoSrc.Decoder.RepeatedMessage.loop1 field fn fuel d s) = Dec.repeatedMessageN field fn fuel d s := by
@@ -105,7 +118,9 @@ theorem RepeatedMessage_loop1_eq {σ} (field : Int) (fn : DecM σ) (fuel : Nat) 
   | succ n ih =>
     unfold GoSrc.Decoder.RepeatedMessage.loop1 Dec.repeatedMessageN
     simp only [fail_eq, pushState_eq, popState_eq, nextField_eq]
-    simp [apply_ite (Res.mapr Prod.snd), Res.mapr_bind, ih]
+    first
+    | (simp [apply_ite (Res.mapr Prod.snd), Res.mapr_bind, ih]; done)
+    | (simp only [bind, Res.bind, pure] at *; grind [Res.mapr])
 
 theorem RepeatedMessage_eq {σ} (field : Int) (fn : DecM σ) (d : Dec) (s : σ) :
     GoSrc.Decoder.RepeatedMessage field fn d s = Dec.repeatedMessage field fn d s := by
@@ -165,46 +180,12 @@ theorem RepeatedEnum_loop1_eq (field : Int) (fuel : Nat) (d : Dec) (s : List Nat
   | succ n ih =>
     unfold GoSrc.Decoder.RepeatedEnum.loop1 Dec.readRepeatedEnumN
     simp only [fail_eq, nextField_eq]
-    simp [apply_ite (Res.mapr _), Res.mapr_bind, ih, addPat, toU_wrapS_32]
-    split
-    · split
-      · split
-        · rfl
-        · -- packed occurrence
-          have key := RepeatedEnum_loop2_eq field ((consumeBytes d.cur.buffer).1.length + 1) d (consumeBytes d.cur.buffer).1 s
-          have sh := packedEnum_shift ((consumeBytes d.cur.buffer).1.length + 1) (consumeBytes d.cur.buffer).1 s []
-          rw [List.append_nil] at sh
-          rw [sh] at key
-          cases hl : GoSrc.Decoder.RepeatedEnum.loop2 field addPat ((consumeBytes d.cur.buffer).1.length + 1) d (consumeBytes d.cur.buffer).1 s with
-          | ok x =>
-            rw [hl] at key
-            cases hp : readRepeatedEnumN.packedEnum ((consumeBytes d.cur.buffer).1.length + 1) (consumeBytes d.cur.buffer).1 [] with
-            | ok y =>
-              rw [hp] at key
-              simp only [Res.mapr_ok, Res.ok.injEq, Prod.mk.injEq] at key
-              obtain ⟨k1, k2, k3⟩ := key
-              obtain ⟨xs, bad⟩ := y
-              cases bad
-              · simp at k1 k2 k3
-                simp [k1, k2, k3, Res.mapr_bind, ih]
-              · simp at k1 k2 k3
-                simp [k1, k2, k3]
-            | panic w => rw [hp] at key; simp at key
-            | outOfFuel => rw [hp] at key; simp at key
-          | panic w =>
-            rw [hl] at key
-            cases hp : readRepeatedEnumN.packedEnum ((consumeBytes d.cur.buffer).1.length + 1) (consumeBytes d.cur.buffer).1 [] with
-            | ok y => rw [hp] at key; simp at key
-            | panic w' => rw [hp] at key; simp at key; simp [key]
-            | outOfFuel => rw [hp] at key; simp at key
-          | outOfFuel =>
-            rw [hl] at key
-            cases hp : readRepeatedEnumN.packedEnum ((consumeBytes d.cur.buffer).1.length + 1) (consumeBytes d.cur.buffer).1 [] with
-            | ok y => rw [hp] at key; simp at key
-            | panic w' => rw [hp] at key; simp at key
-            | outOfFuel => rfl
-      · rfl
-    · rfl
+    have key := RepeatedEnum_loop2_eq field ((consumeBytes d.cur.buffer).1.length + 1) d (consumeBytes d.cur.buffer).1 s
+    have sh := packedEnum_shift ((consumeBytes d.cur.buffer).1.length + 1) (consumeBytes d.cur.buffer).1 s []
+    rw [List.append_nil] at sh
+    rw [sh] at key
+    simp only [bind, Res.bind, pure] at *
+    grind [Res.mapr, addPat, toU_wrapS_32]
 
 theorem RepeatedEnum_eq (field : Int) (d : Dec) (s : List Nat) :
     GoSrc.Decoder.RepeatedEnum field addPat d s = Dec.readRepeatedEnum field d s := by
@@ -253,10 +234,16 @@ theorem UnrecognizedFields_loop1_eq (exclude : Nat) (fuel : Nat) (d : Dec) (out 
     · by_cases h1 : d.cur.pendingField < 64
       · have hm := mask_test exclude d.cur.pendingField h0 h1
         have h64 : ¬ d.cur.pendingField ≥ 64 := by omega
-        simp [h0, h64, hm, apply_ite (Res.mapr _), Res.mapr_bind, ih]
+        first
+        | (simp [h0, h64, hm, apply_ite (Res.mapr _), Res.mapr_bind, ih]; done)
+        | (simp only [bind, Res.bind, pure] at *; grind [Res.mapr])
       · have h64 : d.cur.pendingField ≥ 64 := by omega
-        simp [h0, h64, apply_ite (Res.mapr _), Res.mapr_bind, ih]
-    · simp [h0]
+        first
+        | (simp [h0, h64, apply_ite (Res.mapr _), Res.mapr_bind, ih]; done)
+        | (simp only [bind, Res.bind, pure] at *; grind [Res.mapr])
+    · first
+      | (simp [h0]; done)
+      | (simp only [bind, Res.bind, pure] at *; grind [Res.mapr])
 
 theorem UnrecognizedFields_eq (exclude : Nat) (d : Dec) (out : Bytes) :
     GoSrc.Decoder.UnrecognizedFields exclude d out = Dec.unrecognizedFields exclude d out := by
